@@ -38,6 +38,9 @@ import (
 	"github.com/hashicorp/go-hclog"
 	"github.com/hashicorp/raft"
 	wal "github.com/hashicorp/raft-wal"
+	walfs "github.com/hashicorp/raft-wal/fs"
+	"github.com/hashicorp/raft-wal/segment"
+	"github.com/hashicorp/raft-wal/types"
 
 	"verif/harness/valpool"
 
@@ -64,7 +67,35 @@ type scenario struct {
 	LeftTmp string `json:"leftTmp,omitempty"` // plant a leftover wal-meta.db.tmp before the first Open: valid | garbage
 }
 
+// killedVFS is the production fs.FS as a process sees it that is killed between the pwrite of a commit and its fsync: every
+// call reaches the kernel except Sync, which fails without doing anything (the call "never happened"). What such a process
+// wrote sits in the page cache - visible to the next process, durable for nobody.
+type killedVFS struct{ types.VFS }
+
+type killedFile struct{ types.WritableFile }
+
+var errKilled = fmt.Errorf("fstrace: the process is killed before this fsync")
+
+func (f killedFile) Sync() error { return errKilled }
+
+func (v killedVFS) Create(dir, name string, size uint64) (types.WritableFile, error) {
+	f, err := v.VFS.Create(dir, name, size)
+	if err != nil {
+		return nil, err
+	}
+	return killedFile{f}, nil
+}
+
+func (v killedVFS) OpenWriter(dir, name string) (types.WritableFile, error) {
+	f, err := v.VFS.OpenWriter(dir, name)
+	if err != nil {
+		return nil, err
+	}
+	return killedFile{f}, nil
+}
+
 type runner struct {
+	killed bool // the next Open runs on killedVFS
 	dir   string
 	sc    scenario
 	w     *wal.WAL
@@ -122,7 +153,15 @@ func (r *runner) open() error {
 		var err error
 		lg := hclog.NewNullLogger()
 		// default segment filer (fs.New()) and default meta store (BoltMetaDB)
-		if r.sc.Codec == "bin" {
+		if r.killed {
+			sf := segment.NewFiler(r.dir, killedVFS{walfs.New()})
+			if r.sc.Codec == "bin" {
+				w, err = wal.Open(r.dir, wal.WithSegmentSize(r.sc.SegSize), wal.WithLogger(lg), wal.WithSegmentFiler(sf))
+			} else {
+				w, err = wal.Open(r.dir, wal.WithSegmentSize(r.sc.SegSize), wal.WithLogger(lg), wal.WithSegmentFiler(sf),
+					wal.WithCodec(valpool.IdentCodec{}))
+			}
+		} else if r.sc.Codec == "bin" {
 			w, err = wal.Open(r.dir, wal.WithSegmentSize(r.sc.SegSize), wal.WithLogger(lg))
 		} else {
 			w, err = wal.Open(r.dir, wal.WithSegmentSize(r.sc.SegSize), wal.WithLogger(lg),
@@ -250,6 +289,25 @@ func (r *runner) run() {
 			r.barrier()
 		case "set":
 			_ = r.call("set", func() error { return r.w.Set([]byte{byte('k'), byte(s.Key)}, []byte{byte(s.Val)}) })
+		case "killstore":
+			// the process that makes this append is killed between the pwrite and the fsync: restart on a stack whose
+			// fsync never happens, append (fails, is not acknowledged), abandon it, restart on the production stack
+			r.closeWAL()
+			r.killed = true
+			err := r.open()
+			r.killed = false
+			if err != nil {
+				return
+			}
+			logs := make([]*raft.Log, len(s.Cids))
+			for j, c := range s.Cids {
+				logs[j] = r.pool.Log(valpool.Ent{Idx: s.First + uint64(j), Cid: c, Sz: 1})
+			}
+			_ = r.call("store", func() error { return r.w.StoreLogs(logs) })
+			r.closeWAL()
+			if r.open() != nil {
+				return
+			}
 		case "reopen":
 			r.closeWAL()
 			if s.Orphan {
